@@ -9,6 +9,7 @@ import AdeuModel.Model.Engine
 import AdeuModel.Model.Markup
 import AdeuModel.Model.Tools
 import AdeuModel.Model.Package
+import AdeuModel.Model.History
 /-
 Line protocol driver: one JSON object per input line, one JSON result per output line.
 Imports model files only (never Lemmas/Props), so it can be compiled to a native executable.
@@ -273,6 +274,35 @@ def handlePreview (j : Json) : Except String Json := do
     ("matches", toJson ((Markup.matchesFrom text edits 0).map fun m => [m.s, m.e, m.idx])),
     ("kept", toJson (kept.map fun m => [m.s, m.e, m.idx]))]
 
+/-! ### histories (C07) -/
+def parseIEdit (e : Json) : Except String Doc.IEdit := do
+  let idx ← e.getObjValAs? Nat "index"
+  let t ← getStr e "target"
+  let n ← getStr e "new"
+  let c := match e.getObjVal? "comment" with | .ok (Json.str x) => some x.toList | _ => none
+  pure { index := idx, target := t, new := n, comment := c }
+
+def parseAction (a : Json) : Except String Doc.Action := do
+  let k ← a.getObjValAs? String "action"
+  let kind ← match k with
+    | "ACCEPT" => pure Doc.ActKind.accept | "REJECT" => pure Doc.ActKind.reject | "REPLY" => pure Doc.ActKind.reply
+    | _ => throw s!"bad action {k}"
+  let t ← getStr a "target_id"
+  let txt := match a.getObjVal? "text" with | .ok (Json.str x) => some x.toList | _ => none
+  pure { kind := kind, target := t, text := txt }
+
+def handleHistory (j : Json) : Except String Json := do
+  let d0 ← DriverDoc.parseDoc (← j.getObjVal? "doc")
+  let steps ← (← j.getObjValAs? (Array Json) "steps").toList.mapM fun st => do
+    match (← st.getObjValAs? String "kind") with
+    | "edits" => pure (Doc.Step.edits (← getStr st "author") (← (← st.getObjValAs? (Array Json) "edits").toList.mapM parseIEdit))
+    | "actions" => pure (Doc.Step.actions (← getStr st "author") (← (← st.getObjValAs? (Array Json) "actions").toList.mapM parseAction))
+    | "accept_all" => pure Doc.Step.acceptAll
+    | k => throw s!"bad step {k}"
+  let r := Doc.runHistory d0 steps
+  pure <| Json.mkObj [("doc", DriverDoc.docFullJ r.1), ("counts", toJson (r.2.map fun c => [c.1, c.2])),
+    ("reached", Json.arr ((Doc.reached d0 steps).map DriverDoc.docFullJ).toArray)]
+
 /-! ### tool front-ends (C17) -/
 def handleTool (j : Json) : Except String Json := do
   let tool : Tools.Tool ← match (← j.getObjValAs? String "tool") with
@@ -338,6 +368,7 @@ def handle (j : Json) : Except String Json := do
   | "preview" => handlePreview j
   | "tool" => handleTool j
   | "pkgsave" => handlePkgSave j
+  | "history" => handleHistory j
   | _ => throw s!"bad-op {op}"
 
 partial def loop (h : IO.FS.Stream) (out : IO.FS.Stream) : IO Unit := do
